@@ -1,4 +1,4 @@
-(* C17 driver.  input  = ((f f f f f f) <json ops> (<table> ...))
+(* C17 driver.  input  = ((f f f f f f f) <json ops> (<table> ...))
      json  = N | (B 0|1) | (I int) | (S (cps)) | (A json...) | (O ((cps) json)...)
      table = ((cols (cps)...) (rows ((cell...) ...)))   cell = (s (cps)) | (n int) | na
    output = (unmodelled) | (rejected) | (ctor Exn)
@@ -38,9 +38,9 @@ let table_sx (t : table) : sx =
 let () = main_loop (fun x ->
   ignore (force_types O N0);
   match x with
-  | L (L [f1; f2; f3; f4; f5; f6] :: ops :: L ts :: rest) ->
+  | L (L [f1; f2; f3; f4; f5; f6; f7] :: ops :: L ts :: rest) ->
     let fx = { fx_reorder = sx_bool f1; fx_factor = sx_bool f2; fx_match = sx_bool f3;
-               fx_copy = sx_bool f4; fx_gaps = sx_bool f5; fx_disjoint = sx_bool f6 } in
+               fx_copy = sx_bool f4; fx_gaps = sx_bool f5; fx_disjoint = sx_bool f6; fx_nan = sx_bool f7 } in
     let ops = json_of_sx ops in
     (* a 4th element "file": the tables are raw text as read from a tsv file (cells all (s cps)) *)
     let raw_table x = (match x with
